@@ -54,6 +54,15 @@ type exec struct {
 	lastFull string // status + complete body of the last deciding response (+ resumable sub-requests)
 	mustSame bool   // the last step failed (non-2xx): the next dump must equal the previous one
 	stats    map[string]int64
+	sess     *sessInfo // the resumable session of the upload in progress / just decided (nil: none was opened)
+}
+
+// sessInfo is what a client still knows about a resumable session after its deciding response.
+type sessInfo struct {
+	method, target string
+	lastCR         string // Content-Range and body of the last request sent on the session
+	lastBody       []byte
+	decided        bool // the deciding response came from a chunk / finalising request (not from the initiation)
 }
 
 func newExec(srv *drive.Server, strictGrowth bool) *exec {
@@ -195,8 +204,12 @@ type uploadSpec struct {
 	CT       string            // "" = no content type sent anywhere
 	CTMode   string            // multipart: both | meta | part
 	UserMeta map[string]string // multipart / resumable metadata
-	Gzip     bool              // media / multipart request body gzip-compressed
-	MD5      string            // "", right, wrong, malformed (multipart / resumable)
+	// Extra: further resource fields sent in the multipart / resumable metadata (nested ones: acl entries, owner,
+	// retention, customerEncryption). The model demands nothing about them; whatever the server shows for them
+	// afterwards is part of the state that failed requests must leave alone.
+	Extra    map[string]any
+	Gzip     bool   // media / multipart request body gzip-compressed
+	MD5      string // "", right, wrong, malformed (multipart / resumable)
 	Conds    model.Conds
 	Boundary string
 	// resumable session behaviour
@@ -226,6 +239,10 @@ func (u *uploadSpec) describe() string {
 	if len(u.UserMeta) > 0 {
 		s += fmt.Sprintf(" metadata=%v", u.UserMeta)
 	}
+	if len(u.Extra) > 0 && u.Proto != "media" {
+		x, _ := json.Marshal(u.Extra)
+		s += fmt.Sprintf(" extra=%s", x)
+	}
 	if u.Proto == "resumable" {
 		s += fmt.Sprintf(" post=%v location=%v knownTotal=%v chunkMax=%d hostile=%v", u.Post, u.UseLocation, u.KnownTotal, u.ChunkMax, u.Hostile)
 	}
@@ -242,6 +259,9 @@ func (u *uploadSpec) metaJSON() []byte {
 	}
 	if len(u.UserMeta) > 0 {
 		m["metadata"] = u.UserMeta
+	}
+	for k, v := range u.Extra {
+		m[k] = v
 	}
 	switch u.MD5 {
 	case "right":
@@ -261,6 +281,7 @@ func condParams(c model.Conds) [][2]string { return c.Params() }
 // of the sub-requests and a protocol-level complaint (a 308 whose Range is inconsistent, no progress).
 func (e *exec) sendUpload(u *uploadSpec, r *common.Rand) (final *drive.Resp, sub []string, complaint string) {
 	q := condParams(u.Conds)
+	e.sess = nil
 	switch u.Proto {
 	case "media":
 		return e.cl.UploadMedia(u.Bucket, u.Name, u.CT, u.Body, u.Gzip, q), nil, ""
@@ -296,11 +317,14 @@ func (e *exec) sendUpload(u *uploadSpec, r *common.Rand) (final *drive.Resp, sub
 		}
 	}
 	e.stats["resumable_sessions"]++
+	sess := &sessInfo{method: method, target: target}
+	e.sess = sess
 	N := int64(len(u.Body))
 	var stored, maxSent int64
 	queries, resends := 0, 0 // bounded so that truncating re-sends cannot starve progress
 	send := func(cr string, body []byte) *drive.Resp {
 		rsp := e.cl.ResumableChunk(method, target, cr, body)
+		sess.lastCR, sess.lastBody = cr, body
 		sub = append(sub, fmt.Sprintf("%s %q (%d bytes) -> %d Range=%q", method, cr, len(body), rsp.Status, rsp.Header.Get("Range")))
 		e.stats["resumable_requests"]++
 		return rsp
@@ -358,6 +382,7 @@ func (e *exec) sendUpload(u *uploadSpec, r *common.Rand) (final *drive.Resp, sub
 			if rsp.OK() && len(sub) >= 3 {
 				e.stats["resumable_multi"]++
 			}
+			sess.decided = true
 			return rsp, sub, ""
 		}
 		k, ok := drive.ParseRange308(rsp.Header.Get("Range"))
@@ -474,35 +499,7 @@ func (e *exec) upload(u *uploadSpec, r *common.Rand) string {
 		return complaint
 	}
 	if v == model.Pass && !md5bad {
-		if !rsp.OK() {
-			return fmt.Sprintf("valid upload rejected: %s", rsp)
-		}
-		res, err := rsp.JSON()
-		if err != nil {
-			return "upload response is not a JSON object: " + err.Error()
-		}
-		o := &model.Object{Content: append([]byte(nil), u.Body...), CT: u.CT, CTKnown: u.CT != ""}
-		if msg := checkResource(res, u.Bucket, u.Name, o); msg != "" {
-			return "upload response: " + msg
-		}
-		gen, metagen, msg := gensOf(res)
-		if msg != "" {
-			return "upload response: " + msg
-		}
-		o.Gen, o.Metagen = gen, metagen
-		o.Learned = model.ExtractFields(res)
-		e.noteWrite(u.Bucket, u.Name, cur)
-		e.law(e.laws.Write(u.Bucket, u.Name, gen, metagen))
-		e.headerAgrees("upload response", rsp, gen, metagen)
-		e.m.Put(u.Bucket, u.Name, o)
-		e.stats["uploads_ok"]++
-		if !u.Conds.Empty() {
-			e.stats["conditioned_passes"]++
-		}
-		if cur != nil {
-			e.stats["overwrites"]++
-		}
-		return ""
+		return e.ackUpload(u, u.Body, rsp, cur)
 	}
 	// a failure is expected
 	e.mustSame = true
@@ -525,7 +522,136 @@ func (e *exec) upload(u *uploadSpec, r *common.Rand) string {
 	if v != model.Pass {
 		e.stats["precondition_failures"]++
 	}
+	if md5bad && u.Proto == "resumable" && e.sess != nil && e.sess.decided {
+		return e.retryRejectedSession(u, r, cur, v)
+	}
 	return ""
+}
+
+// ackUpload checks the 2xx acknowledgement of an upload of content and moves the model.
+func (e *exec) ackUpload(u *uploadSpec, content []byte, rsp *drive.Resp, cur *model.Object) string {
+	if !rsp.OK() {
+		return fmt.Sprintf("valid upload rejected: %s", rsp)
+	}
+	res, err := rsp.JSON()
+	if err != nil {
+		return "upload response is not a JSON object: " + err.Error()
+	}
+	o := &model.Object{Content: append([]byte(nil), content...), CT: u.CT, CTKnown: u.CT != ""}
+	if msg := checkResource(res, u.Bucket, u.Name, o); msg != "" {
+		return "upload response: " + msg
+	}
+	gen, metagen, msg := gensOf(res)
+	if msg != "" {
+		return "upload response: " + msg
+	}
+	o.Gen, o.Metagen = gen, metagen
+	o.Learned = model.ExtractFields(res)
+	e.noteWrite(u.Bucket, u.Name, cur)
+	e.law(e.laws.Write(u.Bucket, u.Name, gen, metagen))
+	e.headerAgrees("upload response", rsp, gen, metagen)
+	e.m.Put(u.Bucket, u.Name, o)
+	e.stats["uploads_ok"]++
+	if !u.Conds.Empty() {
+		e.stats["conditioned_passes"]++
+	}
+	if cur != nil {
+		e.stats["overwrites"]++
+	}
+	return ""
+}
+
+// retryRejectedSession: the finalisation of a resumable session was just rejected (4xx) and the session's metadata
+// declares an MD5 that its bytes do not match. A client may try again on the SAME session: it repeats the
+// finalising request, re-sends the same bytes, or re-sends the whole content from offset 0 with other bytes. Whatever
+// it sends, as long as the bytes do not match the MD5 declared when the session was opened the request must not be
+// acknowledged (a 308 "incomplete" or any 4xx, including 404/410 "no such session", are rejections) and the store
+// must stay as it was. Finally the client may re-send, from offset 0, the bytes that DO match the declared MD5: that
+// is either refused as well (session gone; nothing changed) or it is an upload of exactly those bytes.
+func (e *exec) retryRejectedSession(u *uploadSpec, r *common.Rand, cur *model.Object, v model.Verdict) string {
+	s := e.sess
+	declared := "an undecodable value"
+	if u.MD5 == "wrong" {
+		declared = model.MD5b64(append([]byte("not-"), u.Body...))
+	}
+	// refusal: 308 (incomplete), any 4xx, or - when the session's conditions fail as well - their status (304)
+	refusal := func(status int) bool {
+		return status == 308 || (status >= 400 && status <= 499) || (v != model.Pass && failureOK(v, status, false))
+	}
+	held := u.Body // what the session holds, as far as the client can tell
+	original := true
+	full := func(b []byte) string { return fmt.Sprintf("bytes 0-%d/%d", len(b)-1, len(b)) }
+	try := func(what, cr string, body []byte) (*drive.Resp, string) {
+		rsp := e.cl.ResumableChunk(s.method, s.target, cr, body)
+		e.stats["resumable_requests"]++
+		e.rec(fmt.Sprintf("retry on the session of the rejected upload of %s/%q: %s %s %q (%s)", u.Bucket, u.Name, what, s.method, cr, bodyDesc(body)),
+			"not acknowledged (308 or 4xx), nothing changed: the session declared md5Hash "+declared, rsp.String(), nil)
+		e.lastFull += fmt.Sprintf("\nretry %s -> %d", what, rsp.Status)
+		if rsp.Err != "" {
+			return rsp, "retry on a resumable session got no response: " + rsp.Err
+		}
+		return rsp, ""
+	}
+	for t, n := 0, r.Range(1, 3); t < n; t++ {
+		var rsp *drive.Resp
+		var msg, what string
+		sent := held
+		switch x := r.Intn(4); {
+		case x == 0 && original && s.lastCR != "":
+			what = "the rejected finalising request once more"
+			rsp, msg = try(what, s.lastCR, s.lastBody)
+			e.stats["md5_retries_same_bytes"]++
+		case x == 1 && len(held) > 0:
+			what = "the same bytes re-sent from offset 0"
+			rsp, msg = try(what, full(held), held)
+			e.stats["md5_retries_same_bytes"]++
+		case x == 2:
+			what = "other bytes sent from offset 0"
+			sent = append([]byte(fmt.Sprintf("retry-%d-", t)), u.Body[:len(u.Body)/2]...)
+			rsp, msg = try(what, full(sent), sent)
+			held, original = sent, false
+			e.stats["md5_retries_other_bytes"]++
+		default:
+			what = "a bodiless finalising request"
+			rsp, msg = try(what, fmt.Sprintf("bytes */%d", len(held)), nil)
+			e.stats["md5_retries_same_bytes"]++
+		}
+		if msg != "" {
+			return msg
+		}
+		if rsp.OK() {
+			return fmt.Sprintf("after the finalisation of a resumable upload was rejected for its declared MD5 (%s), %s on the same session was acknowledged although the bytes (%s) still do not match the declared MD5: %s", declared, what, bodyDesc(sent), rsp)
+		}
+		if !refusal(rsp.Status) {
+			return fmt.Sprintf("retry on a session whose finalisation was rejected for its MD5 (%s) answered %d, expected a rejection (308 or 4xx)", what, rsp.Status)
+		}
+		if rsp.Status == 404 || rsp.Status == 410 {
+			e.stats["md5_retries_session_gone"]++
+			return ""
+		}
+	}
+	if u.MD5 != "wrong" || !r.Bool() {
+		return ""
+	}
+	right := append([]byte("not-"), u.Body...)
+	rsp, msg := try("the bytes that match the declared MD5, from offset 0", full(right), right)
+	if msg != "" {
+		return msg
+	}
+	e.stats["md5_retries_right_bytes"]++
+	if !rsp.OK() {
+		if !refusal(rsp.Status) {
+			return fmt.Sprintf("retry with the matching bytes on a session whose finalisation was rejected answered %d, expected 2xx, 308 or 4xx", rsp.Status)
+		}
+		return ""
+	}
+	if v != model.Pass {
+		return fmt.Sprintf("retry on the session of an upload that must fail (%s) was acknowledged: %s", v, rsp)
+	}
+	// accepted: it is an upload of exactly the matching bytes
+	e.mustSame = false
+	e.stats["md5_retries_right_bytes_accepted"]++
+	return e.ackUpload(u, right, rsp, cur)
 }
 
 // ---------------------------------------------------------------- delete / patch
@@ -624,6 +750,15 @@ func (e *exec) patch(b, n string, fields map[string]any, c model.Conds) string {
 	}
 	e.recResp(req, expect, rsp, nil)
 	e.stats["patches"]++
+	if hasNested(fields) {
+		e.stats["patches_setting_nested_fields"]++
+	}
+	if bn, ok := fields["name"].(string); ok && (bn != n || (fields["bucket"] != nil && fields["bucket"] != b)) {
+		e.stats["patches_body_is_another_objects_resource"]++
+		if e.m.Get(b, bn) == nil {
+			e.stats["patches_body_names_an_absent_object"]++
+		}
+	}
 	if rsp.Err != "" {
 		return "patch got no response: " + rsp.Err
 	}
@@ -680,6 +815,108 @@ func (e *exec) patch(b, n string, fields map[string]any, c model.Conds) string {
 		return fmt.Sprintf("patch failed with status %d, expected %s", rsp.Status, expect)
 	}
 	e.stats["precondition_failures"]++
+	return ""
+}
+
+// nestedFields are resource fields whose values are objects or arrays of objects. The model does not describe them;
+// they are only ever sent in uploads (as part of the new object) and in PATCH requests that must fail.
+var nestedFields = []string{"acl", "owner", "retention", "customerEncryption"}
+
+func hasNested(fields map[string]any) bool {
+	for _, k := range nestedFields {
+		if _, ok := fields[k]; ok {
+			return true
+		}
+	}
+	return false
+}
+
+// badPatch is a PATCH body that is not a valid object resource: well-formed JSON whose members are valid (Valid, in
+// the order Order) except one member of the wrong JSON type (BadKey: BadRaw) that comes after at least one valid one.
+type badPatch struct {
+	Valid  map[string]any
+	BadKey string
+	Raw    string
+}
+
+// patchBad sends a PATCH whose body carries a type error. It is either refused (any 4xx; with failing conditions or
+// an absent object also their statuses) and then nothing at all may have changed, or - by a lenient server, for a
+// live object whose conditions pass - acknowledged, in which case it is a patch of the valid members: metageneration
+// +1, generation / content untouched, valid members merged, members the body does not name unchanged (nothing is
+// demanded about the member of the wrong type).
+func (e *exec) patchBad(b, n string, bp *badPatch, c model.Conds) string {
+	cur := e.m.Get(b, n)
+	v := model.Eval(cur, c)
+	expect := "4xx (body is not a valid resource), nothing changed"
+	if cur == nil {
+		expect = "404 or 4xx, nothing changed"
+	} else if v != model.Pass {
+		expect = v.String() + " or 400, nothing changed"
+	}
+	e.touch(b, n)
+	rsp := e.cl.Patch(b, n, []byte(bp.Raw), condParams(c))
+	req := fmt.Sprintf("patch %s/%q %s", b, n, bp.Raw)
+	if !c.Empty() {
+		req += " conds=" + c.String()
+	}
+	e.recResp(req, expect, rsp, nil)
+	e.stats["patches"]++
+	e.stats["patches_type_error_body"]++
+	if rsp.Err != "" {
+		return "patch got no response: " + rsp.Err
+	}
+	if !rsp.OK() {
+		e.mustSame = true
+		ok := rsp.Status >= 400 && rsp.Status < 500
+		if cur != nil && v == model.Pass && (rsp.Status == 404 || rsp.Status == 412) {
+			ok = false // the object is there and its conditions hold
+		}
+		if !ok && v != model.Pass && failureOK(v, rsp.Status, cur == nil) {
+			ok = true // 304
+		}
+		if !ok {
+			return fmt.Sprintf("patch with a type error in its body answered %d, expected %s", rsp.Status, expect)
+		}
+		e.stats["patches_type_error_rejected"]++
+		if cur != nil && v == model.Pass {
+			e.stats["patches_type_error_rejected_live_pass"]++
+		}
+		return ""
+	}
+	if cur == nil || v != model.Pass {
+		e.mustSame = true
+		return fmt.Sprintf("patch that must fail (%s) was acknowledged: %s", expect, rsp)
+	}
+	res, err := rsp.JSON()
+	if err != nil {
+		return "patch response is not a JSON object: " + err.Error()
+	}
+	next := cur.Clone()
+	if ct, ok := bp.Valid["contentType"].(string); ok {
+		next.CT, next.CTKnown = ct, true
+	} else if bp.BadKey == "contentType" {
+		next.CTKnown = false
+	}
+	if msg := checkResource(res, b, n, next); msg != "" {
+		return "patch response: " + msg
+	}
+	gen, metagen, msg := gensOf(res)
+	if msg != "" {
+		return "patch response: " + msg
+	}
+	e.law(e.laws.Patch(b, n, gen, metagen))
+	want := model.MergePatch(cur.Learned, model.ExtractFields(bp.Valid))
+	got := model.ExtractFields(res)
+	delete(want, bp.BadKey)
+	gotCmp := model.CloneFields(got)
+	delete(gotCmp, bp.BadKey)
+	if msg := model.FieldsEqual(gotCmp, want); msg != "" {
+		e.law("patch response does not show exactly the merged fields: " + msg)
+	}
+	next.Gen, next.Metagen = gen, metagen
+	next.Learned = got
+	e.m.Put(b, n, next)
+	e.stats["patches_ok"]++
 	return ""
 }
 
@@ -842,7 +1079,12 @@ func (e *exec) compose(c *composeSpec) string {
 	return ""
 }
 
-func (e *exec) copyObj(sb, sn, db, dn string) string {
+func (e *exec) copyObj(sb, sn, db, dn string) string { return e.copyObjBody(sb, sn, db, dn, nil) }
+
+// copyObjBody is a copy whose request body is a destination object resource (nil: the empty resource {}). The body
+// carries output-only fields (generation, metageneration, md5Hash, size, timestamps, ... - stale or made up), which a
+// client cannot set, and exactly the source's user-settable fields; the destination must therefore come out as with {}.
+func (e *exec) copyObjBody(sb, sn, db, dn string, body map[string]any) string {
 	src := e.m.Get(sb, sn)
 	expect := "200 rewriteResponse, destination = clone of source, source untouched"
 	if src == nil {
@@ -850,8 +1092,22 @@ func (e *exec) copyObj(sb, sn, db, dn string) string {
 	}
 	e.touch(db, dn)
 	e.touch(sb, sn)
-	rsp := e.cl.Rewrite(sb, sn, db, dn)
-	e.recResp(fmt.Sprintf("copy %s/%q -> %s/%q", sb, sn, db, dn), expect, rsp, nil)
+	var rsp *drive.Resp
+	req := fmt.Sprintf("copy %s/%q -> %s/%q", sb, sn, db, dn)
+	if body == nil {
+		rsp = e.cl.Rewrite(sb, sn, db, dn)
+	} else {
+		raw, _ := json.Marshal(body)
+		rsp = e.cl.RewriteBody(sb, sn, db, dn, raw)
+		req += fmt.Sprintf(" body=%s", raw)
+		e.stats["copies_with_resource_body"]++
+		if dst := e.m.Get(db, dn); dst != nil {
+			if g, ok := drive.Int64Field(body, "generation"); ok && g != dst.Gen {
+				e.stats["copies_with_resource_body_other_generation"]++
+			}
+		}
+	}
+	e.recResp(req, expect, rsp, nil)
 	e.stats["copies"]++
 	if rsp.Err != "" {
 		return "copy got no response: " + rsp.Err
